@@ -325,6 +325,20 @@ try:
     from periodictable import core as _core, mass as _mass
     _T = _core.PeriodicTable("verif_c02")
     _mass.init(_T)
+    from periodictable import density as _density
+    _density.init(_T)
+    # an atom object given together with table= is that atom (isotope and charge kept)
+    import periodictable as _pt
+    for tn_, tb_ in (("T", _T), ("elements", _pt.elements)):
+        for lab_, a_ in (("Fe", tb_.Fe), ("Fe[56]", tb_.Fe[56]), ("Fe.ion[2]", tb_.Fe.ion[2]), ("Fe[56].ion[3]", tb_.Fe[56].ion[3]), ("D", tb_.D)):
+            g_ = attempt(lambda: formula(a_, table=tb_))
+            if isinstance(g_, Exception) or list(g_.atoms.items()) != [(a_, 1)] or any(k is not a_ for k in g_.atoms):
+                fail("C02:constructor-loses-atoms", "formula(%s.%s, table=%s) has atoms %r" % (tn_, lab_, tn_, g_ if isinstance(g_, Exception) else dict(g_.atoms)),
+                     program="formula(%s.%s, table=%s)" % (tn_, lab_, tn_))
+        m_ = attempt(lambda: formulas.mix_by_weight(tb_.D, 1, tb_.C, 1, table=tb_))
+        if isinstance(m_, Exception) or set(m_.atoms) != {tb_.D, tb_.C}:
+            fail("C02:constructor-loses-atoms", "mix_by_weight(%s.D, 1, %s.C, 1, table=%s) has atoms %r" % (tn_, tn_, tn_, m_ if isinstance(m_, Exception) else dict(m_.atoms)),
+                 program="mix_by_weight(%s.D, 1, %s.C, 1, table=%s)" % (tn_, tn_, tn_))
     for text in ("H2O@1", "Fe[56]{2+}O{2-}@5.7", "CaCO3(H2O)6@1.8"):
         f = formula(text)
         ids = [id(a) for a in f.atoms]
